@@ -12,6 +12,7 @@ IS_FAIL = re.compile(r"::(Option::<T>::is_none|Result::<T, E>::is_err)$")
 SAME_ENUM = re.compile(r"::(Option::<T>::(as_ref|as_mut|copied|cloned|as_deref|take)|Result::<T, E>::(as_ref|as_mut|map_err|copied|cloned|map)|Option::<T>::map|clone::Clone::clone|Option::<&T>::(copied|cloned))$")
 OPT_TO_RES = re.compile(r"::Option::<T>::(ok_or|ok_or_else|context|with_context)$|anyhow::Context::(context|with_context)$")
 RES_TO_OPT = re.compile(r"::Result::<T, E>::ok$")
+ANYHOW_NOT = re.compile(r"^anyhow::__private::not$")
 
 
 def _tag_of_type(ty):
@@ -134,6 +135,8 @@ def enforcement(fn, bi, extra_fail=None):
                     new = ("enum", 1)
                 elif callee_match(it, RES_TO_OPT) and src[0] == "enum":
                     new = ("enum", 0)
+                elif callee_match(it, ANYHOW_NOT) and src[0] == "bool":
+                    new = ("bool", 1 - src[1])
                 elif callee_match(it, FROM_RESIDUAL):
                     continue
                 if new is not None:
@@ -193,6 +196,11 @@ def atoms_match(atoms, req):
     for r in req:
         kind = r[0]
         ok = False
+        if kind == "len":
+            ok = any(a[0] == "len" or (a[0] in ("call", "callres") and re.search(r"::len$", a[1])) for a in atoms)
+            if not ok:
+                return False
+            continue
         for a in atoms:
             if a[0] == kind or (kind == "call" and a[0] in ("callres", "outparam")):
                 if kind in ("call", "const", "fn", "agg", "str", "cast", "via"):
@@ -227,7 +235,7 @@ def comparisons(fn):
     return out
 
 
-def cmp_rejects(fn, comp):
+def cmp_rejects(fn, comp, info=None):
     """For a comparison record, follow its boolean result to a switch and report the
     relation (over a,b) under which control enters the reject region.
     Returns (relation or None, detail)."""
@@ -254,6 +262,12 @@ def cmp_rejects(fn, comp):
                 if new is not None and s["lhs"][0] not in tags:
                     tags[s["lhs"][0]] = new
                     changed = True
+            t = fn.term(bi)
+            if t["k"] == "call" and callee_match(t, ANYHOW_NOT) and not t["dest"][1] and t["dest"][0] not in tags:
+                p = op_place(t["args"][0])
+                if p is not None and not p[1] and p[0] in tags:
+                    tags[t["dest"][0]] = not tags[p[0]]
+                    changed = True
     rel = None
     detail = "comparison result is not branched on"
     for (sb, st) in fn.switches():
@@ -272,9 +286,13 @@ def cmp_rejects(fn, comp):
         f_in = false_t in rr
         if t_in and not f_in:
             rel = comp["op"] if pos else NEG[comp["op"]]
+            if info is not None:
+                info.update(switch=sb, fail_target=true_t, pass_target=false_t)
             return rel, "bb%d: true-branch rejects" % sb
         if f_in and not t_in:
             rel = NEG[comp["op"]] if pos else comp["op"]
+            if info is not None:
+                info.update(switch=sb, fail_target=false_t, pass_target=true_t)
             return rel, "bb%d: false-branch rejects" % sb
         detail = "bb%d: neither or both branches reject" % sb
     # returned directly? (e.g. `a <= b` as the function's boolean result): rejects when false
@@ -319,3 +337,311 @@ def ret_derives_from_call(fn, pat, deep=True):
     acc, _ = fn.accept_points()
     at = fn.origins(0, deep=deep)
     return any(a[0] in ("call", "callres") and re.search(pat, a[1]) for a in at)
+
+
+def root_local(fn, op, maxd=12):
+    """follow single-definition copy/move/cast-free chains back to the defining local"""
+    p = op_place(op) if isinstance(op, dict) else [op, []]
+    if p is None or p[1]:
+        return None if p is None else (p[0], tuple(p[1]))
+    l = p[0]
+    for _ in range(maxd):
+        ds = fn.defs().get(l, [])
+        if len(ds) != 1 or ds[0][1] == "t":
+            break
+        it = ds[0][2]
+        if it["lhs"][1]:
+            break
+        rv = it["rv"]
+        if rv["k"] == "use":
+            q = op_place(rv["a"])
+            if q is None or q[1]:
+                break
+            l = q[0]
+        else:
+            break
+    return (l, ())
+
+
+def range_bounds(fn, op):
+    """(kind, start_operand, end_operand) of the range aggregate feeding operand op"""
+    p = op_place(op)
+    if p is None:
+        return None
+    r = root_local(fn, op)
+    if r is None:
+        return None
+    for (bi, si, it) in fn.defs().get(r[0], []):
+        if si == "t":
+            continue
+        rv = it["rv"]
+        if rv["k"] == "agg" and rv.get("agg") == "adt":
+            a = rv["adt"]
+            if a.endswith("ops::Range"):
+                return ("range", rv["ops"][0], rv["ops"][1])
+            if a.endswith("ops::RangeTo"):
+                return ("to", None, rv["ops"][0])
+            if a.endswith("ops::RangeFrom"):
+                return ("from", rv["ops"][0], None)
+            if a.endswith("ops::RangeFull"):
+                return ("full", None, None)
+            if a.endswith("ops::RangeInclusive") or a.endswith("ops::RangeToInclusive"):
+                return ("inclusive", None, None)
+    return None
+
+
+# ---------------------------------------------------------------------- linear forms (unsigned)
+
+def lin(fn, op, depth=0):
+    """Linear form of an unsigned integer operand over root locals: (dict local->coeff, const) or None"""
+    if depth > 24:
+        return None
+    if isinstance(op, dict):
+        k = op_const(op)
+        if k is not None:
+            v = const_int(k)
+            return ({}, v) if v is not None else None
+        p = op_place(op)
+    else:
+        p = op
+    if p is None:
+        return None
+    l, proj = p[0], p[1]
+    ds = fn.defs().get(l, [])
+    if proj:
+        # field 0 of a checked-arithmetic pair
+        if len(proj) == 1 and proj[0].startswith("f0") and len(ds) == 1 and ds[0][1] != "t":
+            rv = ds[0][2]["rv"]
+            if rv["k"] == "bin" and rv["op"] in ("AddWithOverflow", "MulWithOverflow"):
+                return _lin_bin(fn, rv, depth)
+        return None
+    if len(ds) != 1 or ds[0][1] == "t" or ds[0][2]["lhs"][1] or (1 <= l <= fn.argc):
+        return ({l: 1}, 0)
+    rv = ds[0][2]["rv"]
+    if rv["k"] == "use":
+        r = lin(fn, rv["a"], depth + 1)
+        return r if r is not None else ({l: 1}, 0)
+    if rv["k"] == "cast" and rv["ck"] == "IntToInt":
+        src = op_place(rv["a"])
+        # only widening or same-width unsigned casts preserve the value
+        st = fn.locals[src[0]] if src is not None and not src[1] else None
+        if st in WIDTH and rv["ty"] in WIDTH and WIDTH[rv["ty"]] >= WIDTH[st]:
+            r = lin(fn, rv["a"], depth + 1)
+            return r if r is not None else ({l: 1}, 0)
+        return ({l: 1}, 0)
+    if rv["k"] == "bin" and rv["op"] in ("Add", "AddUnchecked", "Mul", "MulUnchecked"):
+        r = _lin_bin(fn, rv, depth)
+        return r if r is not None else ({l: 1}, 0)
+    return ({l: 1}, 0)
+
+
+WIDTH = {"u8": 8, "u16": 16, "u32": 32, "u64": 64, "usize": 64}
+
+
+def _lin_bin(fn, rv, depth):
+    a = lin(fn, rv["a"], depth + 1)
+    b = lin(fn, rv["b"], depth + 1)
+    if a is None or b is None:
+        return None
+    if rv["op"].startswith("Add"):
+        d = dict(a[0])
+        for k, v in b[0].items():
+            d[k] = d.get(k, 0) + v
+        return (d, a[1] + b[1])
+    if rv["op"].startswith("Mul"):
+        if not a[0]:
+            return ({k: v * a[1] for k, v in b[0].items()}, a[1] * b[1])
+        if not b[0]:
+            return ({k: v * b[1] for k, v in a[0].items()}, a[1] * b[1])
+    return None
+
+
+def lin_le(small, big, facts):
+    """small <= big for all non-negative values of the variables, given facts {local: const}"""
+    d = dict(big[0])
+    c = big[1] - small[1]
+    for k, v in small[0].items():
+        d[k] = d.get(k, 0) - v
+    for k in list(d):
+        if k in facts:
+            kind, val = facts[k]
+            if kind == "eq" or (kind == "ge" and d[k] >= 0):
+                c += d[k] * val
+                del d[k]
+    return c >= 0 and all(v >= 0 for v in d.values())
+
+
+def equality_facts(fn, at_block):
+    """{local: const} from enforced equalities `x == c` (rejecting when different) dominating at_block"""
+    facts = {}
+    for cx in comparisons(fn):
+        if cx["kind"] != "bin":
+            continue
+        if not fn.dominates(cx["bb"], at_block):
+            continue
+        la, lb = lin(fn, cx["a"]), lin(fn, cx["b"])
+        if la is None or lb is None:
+            continue
+        info = {}
+        rel, _ = cmp_rejects(fn, cx, info)
+        if rel is None or "pass_target" not in info or not fn.dominates(info["pass_target"], at_block):
+            continue
+        if rel == "Lt" and len(la[0]) == 1 and not lb[0] and list(la[0].values()) == [1] and la[1] == 0:
+            facts.setdefault(list(la[0])[0], ("ge", lb[1]))      # rejects when x < c  =>  x >= c
+            continue
+        if rel == "Gt" and len(lb[0]) == 1 and not la[0] and list(lb[0].values()) == [1] and lb[1] == 0:
+            facts.setdefault(list(lb[0])[0], ("ge", la[1]))      # rejects when c > x  =>  x >= c
+            continue
+        if rel != "Ne":
+            continue
+        # the accepting successor must dominate at_block: approximated by the comparison dominating and the
+        # failing side being in the reject region (cmp_rejects)
+        if len(la[0]) == 1 and not lb[0] and list(la[0].values()) == [1] and la[1] == 0:
+            facts[list(la[0])[0]] = ("eq", lb[1])
+        elif len(lb[0]) == 1 and not la[0] and list(lb[0].values()) == [1] and lb[1] == 0:
+            facts[list(lb[0])[0]] = ("eq", la[1])
+    return facts
+
+
+def slice_sites(fn, base_local):
+    """[(bb, term, kind, start_op, end_op)] for Index/IndexMut on data derived from base_local"""
+    out = []
+    for (bi, t) in fn.calls(re.compile(r"ops::Index::index$|ops::IndexMut::index_mut$")):
+        if ("arg", base_local) not in fn.origins(t["args"][0]):
+            continue
+        rb = range_bounds(fn, t["args"][1])
+        out.append((bi, t, rb))
+    return out
+
+
+def bounds_proved(fn, base_local, site):
+    """Is the slice at `site` dominated by an enforced comparison against base.len() that implies
+    the slice's bound is within the length?  Returns (ok, detail)."""
+    bi, t, rb = site
+    if rb is None:
+        return False, "index operand is not a range expression (element indexing or computed range)"
+    kind, st, en = rb
+    if kind == "full":
+        return True, "full range"
+    if kind == "inclusive":
+        return False, "inclusive range"
+    bound = en if en is not None else st
+    lb = lin(fn, bound)
+    if lb is None:
+        return False, "bound is not a linear expression"
+    why = []
+    for cx in comparisons(fn):
+        if cx["kind"] != "bin" or not fn.dominates(cx["bb"], bi):
+            continue
+        oa = fn.origins(cx["a"], deep=True)
+        ob = fn.origins(cx["b"], deep=True)
+        is_len_a = any(a[0] == "call" and a[1].endswith("::len") for a in oa) and ("arg", base_local) in oa and lin(fn, cx["a"]) is not None and len(lin(fn, cx["a"])[0]) == 1
+        is_len_b = any(a[0] == "call" and a[1].endswith("::len") for a in ob) and ("arg", base_local) in ob and lin(fn, cx["b"]) is not None and len(lin(fn, cx["b"])[0]) == 1
+        if is_len_a == is_len_b:
+            continue
+        other = cx["b"] if is_len_a else cx["a"]
+        info = {}
+        rel, d = cmp_rejects(fn, cx, info)
+        if rel is None or "pass_target" not in info or not fn.dominates(info["pass_target"], bi):
+            continue
+        if is_len_a:
+            rel = FLIP[rel]
+        # now: rejects when other `rel` len ; need rel in (Gt, Ge)
+        if rel not in ("Gt", "Ge"):
+            why.append("comparison at bb%d rejects when x %s len" % (cx["bb"], rel))
+            continue
+        lo = lin(fn, other)
+        if lo is None:
+            continue
+        facts = equality_facts(fn, bi)
+        if lin_le(lb, lo, facts):
+            return True, "bound %s <= checked %s (facts %s), checked against len at bb%d" % (fmt_lin(lb), fmt_lin(lo), facts, cx["bb"])
+        why.append("bound %s not implied by checked %s" % (fmt_lin(lb), fmt_lin(lo)))
+    return False, "; ".join(why) or "no dominating enforced comparison with the length"
+
+
+def fmt_lin(l):
+    parts = ["%s_%d" % ("" if v == 1 else "%d*" % v, k) for k, v in sorted(l[0].items())]
+    if l[1] or not parts:
+        parts.append(str(l[1]))
+    return "+".join(parts)
+
+
+def cmp_branches(fn, comp):
+    """(switch_bb, true_target, false_target) for the switch deciding comparison `comp`
+    (through Not / anyhow::not chains), oriented so that true_target is taken when `a op b` holds."""
+    tags = {comp["res"]: True}
+    changed = True
+    while changed:
+        changed = False
+        for bi in fn.reachable():
+            for s in fn.stmts(bi):
+                if "lhs" not in s or s["lhs"][1]:
+                    continue
+                rv = s["rv"]
+                new = None
+                if rv["k"] == "use":
+                    p = op_place(rv["a"])
+                    if p is not None and not p[1] and p[0] in tags:
+                        new = tags[p[0]]
+                elif rv["k"] == "un" and rv["op"] == "Not":
+                    p = op_place(rv["a"])
+                    if p is not None and not p[1] and p[0] in tags:
+                        new = not tags[p[0]]
+                if new is not None and s["lhs"][0] not in tags:
+                    tags[s["lhs"][0]] = new
+                    changed = True
+            t = fn.term(bi)
+            if t["k"] == "call" and callee_match(t, ANYHOW_NOT) and not t["dest"][1] and t["dest"][0] not in tags:
+                p = op_place(t["args"][0])
+                if p is not None and not p[1] and p[0] in tags:
+                    tags[t["dest"][0]] = not tags[p[0]]
+                    changed = True
+    for (sb, st) in fn.switches():
+        p = op_place(st["d"])
+        if p is None or p[1] or p[0] not in tags:
+            continue
+        f_t = [tb for v, tb in st["t"] if v == "0"]
+        if not f_t:
+            continue
+        t_t = st["o"]
+        if tags[p[0]]:
+            return sb, t_t, f_t[0]
+        return sb, f_t[0], t_t
+    return None
+
+
+def guarded_site(fn, site_bb, a_req, b_req, bad_rel, deep=True):
+    """The block site_bb is only reachable when NOT (a bad_rel b): some comparison between the
+    two sources has its `holds-bad_rel` branch unable to reach site_bb and its other branch
+    dominating site_bb (or being the only way to it).  Returns (ok, detail)."""
+    why = "no comparison between the two sources"
+    for comp in comparisons(fn):
+        oa = fn.origins(comp["a"], deep=deep)
+        ob = fn.origins(comp["b"], deep=deep)
+        ma = atoms_match(oa, a_req) and atoms_match(ob, b_req)
+        mb = atoms_match(ob, a_req) and atoms_match(oa, b_req)
+        if not (ma or mb):
+            continue
+        br = cmp_branches(fn, comp)
+        if br is None:
+            why = "comparison at bb%d is not branched on" % comp["bb"]
+            continue
+        sb, t_t, f_t = br
+        op = comp["op"] if ma else FLIP[comp["op"]]
+        # branch on which `a bad_rel b` may hold
+        if op == bad_rel:
+            bad_t, good_t = t_t, f_t
+        elif NEG[op] == bad_rel:
+            bad_t, good_t = f_t, t_t
+        else:
+            why = "comparison at bb%d tests a %s b, which does not decide a %s b" % (comp["bb"], op, bad_rel)
+            continue
+        if site_bb in fn.reach_from([bad_t], avoid={sb}):
+            why = "site reachable from the branch where a %s b (bb%d)" % (bad_rel, bad_t)
+            continue
+        if not fn.dominates(sb, site_bb):
+            why = "comparison at bb%d does not dominate the site" % comp["bb"]
+            continue
+        return True, "bb%d decides a %s b; the site is reachable only through the other branch" % (sb, bad_rel)
+    return False, why
